@@ -51,6 +51,7 @@ SCF_ALLOW = 1e-6          # allowance for two SCF solutions of the same geometry
 ORTHO_TOL = 1e-8
 RES_ALLOW = 1.05
 RES_ABS = 1e-11
+VEC_ALLOW = 2.0           # allowance on the Davis-Kahan eigenvector bounds  sin(theta) <= ||r||_2 / gap
 EIG_ABS = 1e-9
 GUARD_FOCK = 1e-6
 GUARD_SS = 1e-9
@@ -302,7 +303,17 @@ def gen_cases(tier, seed):
         cases.append({"kind": "window", "mol": name, "method": method, "geom": _geom_spec(g, name, is_sym),
                       "window": [nb, ma], "n_states": _nstates(g, nb * ma), "tol": float(_pick(g, TOLS)),
                       "starts": [int(g.integers(0, 2**31))]})
-    return cases
+    # interleave the kinds (a budget cut then still leaves balanced coverage); sequences lead each round (most expensive)
+    count, seen = {}, {}
+    for c in cases:
+        count[c["kind"]] = count.get(c["kind"], 0) + 1
+    keyed = []
+    for idx, c in enumerate(cases):
+        k = c["kind"]
+        seen[k] = seen.get(k, 0) + 1
+        keyed.append(((seen[k] - 0.5) / count[k], idx, c))
+    keyed.sort(key=lambda t: (t[0], t[1]))
+    return [c for _, _, c in keyed]
 
 
 # ---------------------------------------------------------------------------------------
@@ -701,6 +712,31 @@ def _judge(acc, mol, b, run, cache, do_sigma=True):
     if nov > m and (run.get("iters") or 0) >= 2:
         acc.nontrivial = True
         acc.m("iterative_solves")
+    if X.shape[1] != nov:
+        # the amplitudes do not live in the requested active space
+        if xm == "rpa" and window:
+            full = _reference(acc, mol, b, None, hetero, cache, False)
+            rf = _rpa_ref(full)
+            same_as_full = bool(rf) and len(E) <= len(rf[0]) and bool(np.all(np.abs(E - rf[0][: len(E)]) <= 1e-3))
+            acc.v("orbital-window-ignored", "rpa-orbital-window-silently-ignored", amplitude_dim=int(X.shape[1]),
+                  window_dim=nov, equals_full_space_rpa=same_as_full, **wit)
+        else:
+            acc.v("amplitude-dimension-mismatch", mech("amplitude-dimension-mismatch"), amplitude_dim=int(X.shape[1]), **wit)
+        rec["ok"] = False
+        rec["stop"] = True
+        return rec
+    if hetero and xm != "rpa" and ref["lam"][0] <= 1e-6:
+        # unstable reference inside a mixed batch: rcis_any_batch assumes that the zero eigenvalues contributed by the
+        # padded subspace rows sort *below* every excitation energy; with negative roots it returns padding instead
+        acc.m("mixed_batch_unstable_reference")
+        lam = ref["lam"]
+        bound = math.sqrt(max(m, 1) * nov) * tol + EIG_ABS
+        bad = m < n_req or bool(np.any(np.abs(E[:n_req] - lam[:n_req]) > bound))
+        if bad:
+            acc.v("unstable-reference-roots-replaced-by-padding", "rcis-any-batch-negative-roots-vs-zero-padding",
+                  dense_lowest=lam[: n_req + 2].tolist(), **wit)
+        rec["ok"] = False
+        return rec
     if m < n_req:
         acc.v("too-few-roots", mech("too-few-roots"), **wit)
         rec["ok"] = False
@@ -755,7 +791,7 @@ def _judge(acc, mol, b, run, cache, do_sigma=True):
             if not near.any() or near.all():
                 continue
             gap = float(np.min(np.abs(lam[~near] - E[k])))
-            bv = math.sqrt(nov) * RES_ALLOW * tol / gap + 1e-8
+            bv = VEC_ALLOW * math.sqrt(nov) * RES_ALLOW * tol / gap + 1e-8
             if int((np.abs(lam - lam[k]) <= 1e-6).sum()) > 1:
                 acc.m("degenerate_roots_checked")
             if bv > 0.3:
@@ -887,7 +923,7 @@ def _compare_runs(acc, base, var, tol_b, tol_v, n_req, nov, what, mech):
     for ks, gap in _levels(rb["lam"], n, 1e-5):
         if max(ks) >= len(base["X"]) or max(ks) >= len(var["X"]):
             continue
-        bv = (2 * math.sqrt(len(ks) * nov) * RES_ALLOW * max(tol_b, tol_v) + 2 * SCF_ALLOW) / gap + 1e-7
+        bv = VEC_ALLOW * (2 * math.sqrt(len(ks) * nov) * RES_ALLOW * max(tol_b, tol_v) + 2 * SCF_ALLOW) / gap + 1e-7
         if bv > 0.3:
             continue
         Q1, Q2 = ao(base, ks), ao(var, ks)
@@ -931,7 +967,7 @@ def _point(case, acc):
     n_req, tol, method = case["n_states"], case["tol"], case["method"]
     obs = {"species": Z, "n_states": n_req, "tol": tol}
     recs = {}
-    for xm in (("cis",) if window else ("cis", "rpa")):
+    for xm in ("cis", "rpa"):
         cache = {}
         mol, es, info = _fresh(Z, X, _settings(method, xm, n_req, tol, window), q, m)
         if info["raised"]:
@@ -946,6 +982,8 @@ def _point(case, acc):
         recs[xm] = base
         if window:
             acc.m("window_solves")
+        if not base.get("ok", True) and base.get("stop"):
+            continue
         obs["E_" + xm] = base["E"].tolist()
         obs["iters_" + xm] = info["iters"]
         nov = base["ref"]["nov"]
